@@ -326,6 +326,13 @@ def r02j(F):
 	# forward_intercepted_htlc has no amount check of its own: the expected amount it is given comes from the pending HTLC
 	return out
 
+def r02k(F):
+	"""HTLC failures and forwards collected while a channel resumes / frees its holding cell are handed on at every exit"""
+	out = []
+	out += P_accum_returned(F, '02.k', 'lightning::ln::channel::FundedChannel::free_holding_cell_htlcs')
+	out += P_accum_returned(F, '02.k', 'lightning::ln::channelmanager::ChannelManager::handle_channel_resumption', min_instances=2)
+	return out
+
 RULES = [
 	('02.a', 'a preimage from update_fulfill_htlc always reaches claim_funds_internal (message, chain and startup paths exist)', r02a),
 	('02.b', 'an RAA blocker is registered for every previous hop before the claim is handed upstream', r02b),
@@ -334,5 +341,6 @@ RULES = [
 	('02.e', 'upstream failure only from the frozen callers; channel hands over fails only from revoke_and_ack under AwaitingRemovedRemoteRevoke', r02e),
 	('02.f', 'monitor: on-chain fail-back only from matured events, confirmed funding spend or the closed-channel near-expiry rule', r02f),
 	('02.g', 'forwarding admission: fee and CLTV-delta inequalities; advertised delta >= MIN_CLTV_EXPIRY_DELTA', r02g),
+	('02.k', 'HTLCs to fail / forward collected by free_holding_cell_htlcs and handle_channel_resumption are returned at every exit', r02k),
 	('02.j', 'forwards without an outgoing channel (intercepts / phantom): outgoing amount <= incoming amount and minimum CLTV delta', r02j),
 ]
